@@ -281,7 +281,10 @@ def run_assembly(case):
     from evo.core.units import Unit
     (Rs, ps), (Re, pe), ts = fixture()
     timed = case["timed"]
-    ref = common.make_traj(Rs, ps, ts if timed else None, case["mode"])
+    # the estimate's clock differs slightly from the reference's (as after
+    # an association within t_max_diff): companion arrays follow the estimate
+    ts_ref = [t - 0.004 - 0.001 * k for k, t in enumerate(ts)]
+    ref = common.make_traj(Rs, ps, ts_ref if timed else None, case["mode"])
     est = common.make_traj(Re, pe, ts if timed else None, case["mode"])
     rel = metrics.PoseRelation[case["relation"]]
     cu = Unit(case["unit"]) if case["unit"] else None
